@@ -35,7 +35,20 @@ M = {
     "noreg_check": ("src/pdsh/mod.c", "        if (!S_ISREG(st.st_mode))\n            continue;", ""),
     "forced_any_type": ("src/pdsh/mod.c", "    if (strcmp (mod->pmod->type, \"misc\") != 0)\n        return 0;", ""),
     "owner_is_me_only": ("src/pdsh/mod.c", "    if (  (st->st_uid != 0) && (st->st_uid != getuid())\n       && (st->st_uid != alt_uid))", "    if (  (st->st_uid != 0) && (st->st_uid != getuid()))"),
+    # ---- C17, classes added in round 2
+    "cmp_notype": ("src/pdsh/mod.c", "    return strcmp (x->pmod->type, y->pmod->type);", "    return 0;"),
+    "dup_bigger_file": ("src/pdsh/mod.c", "                && strcmp (mod->filename, prev->filename) < 0))", "                && strcmp (mod->filename, prev->filename) > 0))"),
+    "match_name_only": ("src/pdsh/mod.c", "    if (  (strcmp(m->pmod->type, type) == 0)\n       && (strcmp(m->pmod->name, name) == 0) )", "    if (  (type != NULL)\n       && (strcmp(m->pmod->name, name) == 0) )"),
+    "isloaded_off": ("src/pdsh/mod.c", "    if (list_find_first(module_list, (ListFindF) _cmp_filenames, filename))\n        return 1;", ""),
+    "empty_ok": ("src/pdsh/mod.c", "    if (count == 0)\n        errx(\"%p: no modules found\\n\");", ""),
+    "opendir_ignored": ("src/pdsh/mod.c", "    if (!(dirp = opendir(dir)))\n        return -1;", "    if (!(dirp = opendir(dir)))\n        return 0;"),
+    "gw_refused": ("src/pdsh/mod.c", "    if ((st->st_mode & S_IWOTH) && !(st->st_mode & S_ISVTX))", "    if ((st->st_mode & (S_IWOTH|S_IWGRP)) && !(st->st_mode & S_ISVTX))"),
+    "file_sticky_excuses": ("src/pdsh/mod.c", "        if (st.st_mode & S_IWOTH) {", "        if ((st.st_mode & S_IWOTH) && !(st.st_mode & S_ISVTX)) {"),
+    "root_dir_unchecked": ("src/pdsh/mod.c", "    } while ( !((st.st_ino == rootino) && (st.st_dev == rootdev)) );", "        if (stat(dirbuf, &st) == 0 && (st.st_ino == rootino) && (st.st_dev == rootdev)) break;\n    } while (1);"),
+    "misc_first_only": ("src/pdsh/mod.c", "    list_for_each (l, (ListForF) _mod_initialize_by_name, m);", "    if (list_count (l) > 0) _mod_initialize_by_name (list_peek (l), m);"),
     # ---- C09
+    "user_len_unchecked": ("src/pdsh/opt.c", "            if (user && strlen (user) > login_name_max_len ())", "            if (0)"),
+    "user_len_off_by_one": ("src/pdsh/opt.c", "    if (strlen (src) > maxlen)", "    if (strlen (src) >= maxlen)"),
     "fmt_u_h": ("src/common/pipecmd.c", "                case 'u':\n                    xstrcat (&str, e->username);", "                case 'u':\n                    xstrcat (&str, e->target);"),
     "fmt_pct_drop": ("src/common/pipecmd.c", "                case '%':\n                    xstrcatchar (&str, '%');\n                    break;", "                case '%':\n                    break;"),
     "fmt_unknown_drop": ("src/common/pipecmd.c", "                default:\n                    xstrcatchar (&str, '%');\n                    xstrcatchar (&str, *p);", "                default:\n                    xstrcatchar (&str, *p);"),
@@ -60,6 +73,36 @@ M = {
         }"""),
     "rsh_swap": ("src/modules/xrcmd.c", "    if (write(s, locuser, strlen(locuser) + 1) < 0\n       || write(s, remuser, strlen(remuser) + 1) < 0", "    if (write(s, remuser, strlen(remuser) + 1) < 0\n       || write(s, locuser, strlen(locuser) + 1) < 0"),
     "rsh_port_nonul": ("src/modules/xrcmd.c", "        if (write(s, num, strlen(num) + 1) != strlen(num) + 1) {", "        if (write(s, num, strlen(num)) != strlen(num)) {"),
+    # xrcmd's connection set-up (harness/xrcmd_harness.c + scripted peer with busy ports)
+    "xr_port_before_bind": ("src/modules/xrcmd.c", "        listen(s2, 1);\n        snprintf(num, sizeof(num), \"%d\", lport);", "        snprintf(num, sizeof(num), \"%d\", lport + 1);\n        listen(s2, 1);"),
+    "xr_no_decrement": ("src/modules/xrcmd.c", "        if (errno == EADDRINUSE) {\n            lport--;\n            continue;", "        if (errno == EADDRINUSE) {\n            continue;"),
+    "xr_backoff_lt": ("src/modules/xrcmd.c", "errno == ECONNREFUSED && timo <= 16", "errno == ECONNREFUSED && timo < 16"),
+    "xr_any_source_port": ("src/modules/xrcmd.c", "            from.sin_port >= IPPORT_RESERVED ||\n", ""),
+    "xr_leak_s2": ("src/modules/xrcmd.c", "            err(\"%p: %S: rcmd: xpoll: protocol failure in circuit setup\\n\", ahost);\n          (void) close(s2);", "            err(\"%p: %S: rcmd: xpoll: protocol failure in circuit setup\\n\", ahost);"),
+    "xr_plain_no_nul": ("src/modules/xrcmd.c", "        if (write(s, \"\", 1) != 1) {", "        if (write(s, \"\", 0) != 0) {"),
+    "xr_law1": ("src/modules/xrcmd.c", "        listen(s2, 1);\n        snprintf(num, sizeof(num), \"%d\", lport);", "        snprintf(num, sizeof(num), \"%d\", lport);"),
+    "xr_law2": ("src/modules/xrcmd.c", "        errno = 0;\n        xpfds[0].fd = s;", "        listen(s2, 1);      /* xr_law1+xr_law2: listen only after the port was announced */\n        errno = 0;\n        xpfds[0].fd = s;"),
+    "xr_write_before_connect": ("src/modules/xrcmd.c", "        rv = connect(s, (struct sockaddr *) &sin, sizeof(sin));", "        if (write(s, locuser, 0) < 0) { }\n        rv = connect(s, (struct sockaddr *) &sin, sizeof(sin));"),
+    "xr_reply_any": ("src/modules/xrcmd.c", "    if (c != 0) {\n        /* retrieve error string", "    if (c != 0 && c != 1) {\n        /* retrieve error string"),
+    # harmless rewrites (expected verdict: exit 0, no VIOLATION)
+    "fix_hl_perm_reorder": ("src/pdsh/mod.c", """    if (  (st->st_uid != 0) && (st->st_uid != getuid())
+       && (st->st_uid != alt_uid))
+        return DIR_BAD_OWNER;
+    if ((st->st_mode & S_IWOTH) && !(st->st_mode & S_ISVTX))
+        return DIR_WORLD_WRITABLE;""", """    if ((st->st_mode & S_IWOTH) && !(st->st_mode & S_ISVTX))
+        return DIR_WORLD_WRITABLE;
+    if (st->st_uid != 0 && st->st_uid != getuid() && st->st_uid != alt_uid)
+        return DIR_BAD_OWNER;"""),
+    "fix_hl_one_write": ("src/modules/xrcmd.c", """    if (write(s, locuser, strlen(locuser) + 1) < 0
+       || write(s, remuser, strlen(remuser) + 1) < 0
+       || write(s, cmd, strlen(cmd) + 1) < 0) {""", """    {
+        size_t n1 = strlen(locuser) + 1, n2 = strlen(remuser) + 1, n3 = strlen(cmd) + 1;
+        char *req = malloc(n1 + n2 + n3);
+        memcpy(req, locuser, n1); memcpy(req + n1, remuser, n2); memcpy(req + n1 + n2, cmd, n3);
+        rv = write(s, req, n1 + n2 + n3);
+        free(req);
+    }
+    if (rv < 0) {"""),
     # repairs
     "fix_d10": ("src/common/pipecmd.c", "            p++;\n            switch (*p) {", "            p++;\n            if (*p == '\\0') {\n                xstrcatchar (&str, '%');\n                break;\n            }\n            switch (*p) {"),
     "fix_d11": ("src/common/pipecmd.c", "    char *str = NULL;\n\n    p = arg;", "    char *str = Strdup (\"\");\n\n    p = arg;"),
@@ -69,17 +112,22 @@ M = {
 def main():
     prop = sys.argv[1]
     for name in sys.argv[2:]:
-        dst = "/var/tmp/mutrepo_" + prop
+        dst = "/var/tmp/mutrepo_%s_%d" % (prop, os.getpid())
         shutil.rmtree(dst, ignore_errors=True)
         subprocess.run(["cp", "-a", "/repo", dst], check=True)
+        skip = False
         for part in name.split("+"):
             path, old, new = M[part]
             f = os.path.join(dst, path)
             s = open(f).read()
             if s.count(old) != 1:
                 print("MUTANT %s: pattern occurs %d times" % (part, s.count(old)))
-                sys.exit(2)
+                skip = True
+                break
             open(f, "w").write(s.replace(old, new))
+        if skip:
+            shutil.rmtree(dst, ignore_errors=True)
+            continue
         env = dict(os.environ, VERIF_REPO=dst)
         p = subprocess.run(["./check.py", prop, "--tier", "quick"], cwd=W, env=env, stdout=subprocess.PIPE,
                            stderr=subprocess.STDOUT)
